@@ -2,8 +2,10 @@ package main
 
 import (
 	"fmt"
+	"os"
 	"sort"
 	"strings"
+	"time"
 
 	"gonum.org/v1/gonum/internal/verif/vlib"
 	"gonum.org/v1/gonum/optimize"
@@ -130,16 +132,28 @@ func sweepCase(t *vlib.T, g *vlib.G, m *methodSpec, ls int, o *objective, conc i
 	bad := 0
 	run := func(c *runCfg) *runResult {
 		var r runResult
-		x := runDefault(c.body(&r))
+		t0 := time.Now()
+		if traceRuns {
+			fmt.Fprintf(os.Stderr, "RUN %s\n", c.String())
+		}
+		x := runDefault(c.body(&r), c.horizon())
 		runs++
+		if traceRuns {
+			fmt.Fprintf(os.Stderr, "    %v %s steps=%d %s\n", time.Since(t0), x.Outcome, x.Steps, describe(&r))
+		}
 		if x.Outcome != "ok" {
 			bad++
+			if traceViol {
+				fmt.Fprintf(os.Stderr, "VIOL %s | %s | %s\n", outcomeClass(x.Outcome), x.Outcome, c.String())
+			}
 			if bad <= 3 {
 				t.SubViolation(" cfg="+c.String(), outcomeClass(x.Outcome), map[string]any{"config": c.String(), "outcome": x.Outcome}, "Minimize did not return normally: %s [%s]", x.Outcome, c.String())
 			}
 			statuses["!"+outcomeClass(x.Outcome)]++
 			return nil
 		}
+		t.Max("max_callbacks_per_run", int64(r.lg.nF+r.lg.nG+r.lg.nH))
+		t.Max("max_scheduler_steps_per_run", int64(x.Steps))
 		if r.res != nil {
 			statuses[r.res.Status.String()]++
 		} else {
@@ -147,6 +161,9 @@ func sweepCase(t *vlib.T, g *vlib.G, m *methodSpec, ls int, o *objective, conc i
 		}
 		if class, msg := c.check(&r); msg != "" {
 			bad++
+			if traceViol {
+				fmt.Fprintf(os.Stderr, "VIOL %s | %s | %s | %s\n", class, msg, c.String(), describe(&r))
+			}
 			if bad <= 3 {
 				t.SubViolation(" cfg="+c.String(), class, map[string]any{"config": c.String(), "result": describe(&r)}, "%s [%s] result: %s", msg, c.String(), describe(&r))
 			}
@@ -178,6 +195,9 @@ func sweepCase(t *vlib.T, g *vlib.G, m *methodSpec, ls int, o *objective, conc i
 				for _, rec := range recs {
 					if !th && rec > 0 && (thr != 0 || iv != 0) {
 						continue // quick: recorder failures only with the plain settings
+					}
+					if !th && !o.finiteEverywhere() && l.f == 0 && l.g == 0 && l.h == 0 && (thr != 0 || iv != 0) {
+						continue // quick: on the NaN/Inf objectives, runs without an evaluation limit only with the plain settings
 					}
 					c := &runCfg{m: m, ls: ls, o: o, limF: l.f, limG: l.g, limH: l.h, limIt: l.it, gradThr: thr, initVals: iv, conc: conc, recMode: rec}
 					r := run(c)
@@ -226,8 +246,21 @@ func sweepCase(t *vlib.T, g *vlib.G, m *methodSpec, ls int, o *objective, conc i
 	t.Detail(map[string]any{"runs": runs, "statuses": statuses})
 }
 
+// traceRuns (VERIF_C19_TRACE=1) prints every run to stderr; debugging aid only.
+var traceRuns = os.Getenv("VERIF_C19_TRACE") == "1"
+var traceViol = os.Getenv("VERIF_C19_TRACE") == "2"
+
+// horizon is the number of scheduler steps after which vsched gives up (a step
+// is one channel/sync operation; an evaluation costs about 12 steps). It is a
+// backstop only: non-termination is detected earlier by the evaluation budget.
+func (c *runCfg) horizon() int {
+	return 3000000
+}
+
 func outcomeClass(oc string) string {
 	switch {
+	case strings.HasPrefix(oc, "panic: "+budgetPanic):
+		return "minimize-no-termination"
 	case strings.HasPrefix(oc, "panic"):
 		return "minimize-panic"
 	case strings.HasPrefix(oc, "deadlock"):
@@ -241,6 +274,9 @@ func outcomeClass(oc string) string {
 }
 
 func describe(r *runResult) string {
+	if r.lg == nil {
+		return "no result"
+	}
 	if r.res == nil {
 		return fmt.Sprintf("nil result, err=%v", r.err)
 	}
